@@ -45,7 +45,7 @@ RParseDemands(e, r) ==
     <<"C10.reject",   IsFail(r) => ~e.ok>>,
     <<"C10.zero",     (~e.ok /\ ~e.panic) => e.v = 0>>,
     <<"C10.typed",    (IsFail(r) /\ ~e.ok) => e.typed>>,
-    <<"C10.valid",    ~e.panic => (e.vok = IsOk(r))>>,
+    <<"C10.valid",    e.vok = IsOk(r)>>,                 \* a Valid that panics has not accepted the numeral
     <<"C10.validtyped", (~IsOk(r) /\ ~e.vok) => e.vtyped>>,
     <<"C18.toolong",  (IsFail(r) /\ ~e.ok /\ ~e.panic) => (SentinelsOK(r, e.is) /\ SentinelsOK(r, e.vis))>>,
     <<"C18.notlong",  (IsFail(r) /\ ~e.ok /\ "ErrInputTooLong" \in r.forb) => "ErrInputTooLong" \notin SeqRange(e.is)>>,  \* within the limit: never refused for its length
